@@ -502,7 +502,10 @@ def run(ctx):
         dyn = [d for d in dyn if 'Nonlin' in d]
     if not nl_ok:
         dyn = [d for d in dyn if 'Nonlin' not in d]
-    ctx.compile_dyn(gens + dyn)
+    from .c10 import compile_parallel
+    first = [g for g in gens if g != 'gen/C20Agree.v']
+    if compile_parallel(ctx, first):                      # independent generated files, then the files that import them
+        compile_parallel(ctx, [g for g in gens if g == 'gen/C20Agree.v'] + dyn)
     ctx.prove()
     # 3. correspondence of the generated terms with the real helpers
     if gen_ok:
